@@ -30,7 +30,7 @@ func TestMain(m *testing.M) { os.Exit(evid.Main(m)) }
 var ev = evid.For(prop)
 
 func init() {
-	ev.SetRule("cases = (package middleware.BadgerDB or resbadger; typed struct or untyped values; default or none; resbadger models with a 1-2 index IndexSet) x a history on a real BadgerDB of change (new, changed, equal, deleted keys, delete of a missing key), add/remove at valid and out-of-range indexes, create (fresh / existing / with default), delete (existing / missing), Value() inside a callback, get requests, and close-and-reopen of the database with a new service; a reference fold over JSON values predicts the served value, the Value(), the old values / deleted data handed to listeners and which events are rejected (nothing published, storage byte-identical); a history is non-trivial with >=1 rejected event, >=1 accepted event after it, and a reopen; distinct = hash of the case")
+	ev.SetRule("cases = (package middleware.BadgerDB or resbadger; typed struct or untyped values; default or none; resbadger models with a 1-2 index IndexSet) x a history on a real BadgerDB of change (new, changed, equal, deleted keys, delete of a missing key), add/remove at valid and out-of-range indexes, create (fresh / existing / with default), delete (existing / missing), Value() inside a callback, get requests, and close-and-reopen of the database with a new service; a reference fold over JSON values predicts the served value, the Value(), the old values / deleted data handed to listeners and which events are rejected (nothing published, storage byte-identical); a history is non-trivial with >=1 rejected event, >=1 accepted event after it, and a reopen; distinct = hash of the case Concurrent histories: 2-8 resources each updated by its own goroutine (3-30 always-applicable events with values of 0-300 extra characters) through 2-8 workers; non-trivial with >=3 resources and >=20 events.")
 	ev.Assume("a delete event on a missing resource is not covered by the property (only: storage stays unchanged)")
 }
 
